@@ -286,10 +286,11 @@ def run(prog, chk):
         r3.violation(an.file, an.name, an.line, "margins", "analyser margins %s, writer overheads %s" % (sorted(margins), sorted(want_margins)))
     # delim_length values assigned vs the writer's case labels
     assigned = set()
-    for (b, i, r, n) in an.eval_sites("asg"):
-        p = path(strip(n.get("lhs")))
-        if p and p.endswith("delim_length") and const(n.get("rhs")) is not None:
-            assigned.add(const(n.get("rhs")))
+    for f_ in analyser_family(prog):
+        for (b, i, r, n) in f_.eval_sites("asg"):
+            p = path(strip(n.get("lhs")))
+            if p and p.endswith("delim_length") and const(n.get("rhs")) is not None:
+                assigned.add(const(n.get("rhs")))
     labels = {}
     for sb in wc.blocks.values():
         if sb.term and sb.term.get("k") == "SwitchStmt":
@@ -318,36 +319,53 @@ def run(prog, chk):
     accumulator_rule(prog, r5)
 
 
+def analyser_family(prog):
+    """cif_analyze_string and the static helpers of utils.c it hands its `result` object to."""
+    an = prog.fn("cif_analyze_string")
+    fam = [an]
+    for (b, i, r, c) in an.calls():
+        g = c.get("callee")
+        if g and prog.has_fn(g) and prog.fn(g).unit == an.unit and prog.fn(g).static \
+                and any(path(strip(a)) == "result" for a in c.get("args", [])) and prog.fn(g) not in fam:
+            fam.append(prog.fn(g))
+    return fam
+
+
 def delimiter_agreement(prog, chk):
     """R4: the evidence tested on the way to recommending delimiter D is evidence about D: on every guard whose *true* outcome
     must be passed to reach `u_strcpy(result->delim, D)`, a delimiter array that is mentioned is D itself, and a per-character
     count that is tested is the count of D's own character."""
     r4 = chk.rule("R4-delimiter-evidence", "guards passed (true outcome) on the way to recommending a delimiter mention only that "
-                  "delimiter's array and the count of its own character", floor=6)
-    an = prog.fn("cif_analyze_string")
+                  "delimiter's array and the count of its own character", floor=5)
+    fam = analyser_family(prog)
     first = {}
-    for (b, i, r, n) in an.eval_sites("decl"):
-        for v in n.get("vars", []):
-            if v["name"].endswith("_delim") and v.get("init") is not None:
-                el = strip(v["init"]).get("elems") or []
-                if el and const(el[0]) is not None:
-                    first[v["name"]] = const(el[0])
-    if len(first) < 4:
-        # static locals may be hoisted out of the CFG: read them from the function's locals table
-        for l in an.locals:
-            if l["name"].endswith("_delim") and l.get("init") is not None:
+    from .c02 import array_ints
+    for f_ in fam:
+        for (b, i, r, n) in f_.eval_sites("decl"):
+            for v in n.get("vars", []):
+                if v["name"].endswith("_delim") and v.get("init") is not None:
+                    el = strip(v["init"]).get("elems") or []
+                    if el and const(el[0]) is not None:
+                        first[v["name"]] = const(el[0])
+        for l in f_.locals:
+            if l["name"].endswith("_delim") and l.get("init") is not None and l["name"] not in first:
                 el = strip(l["init"]).get("elems") or []
                 if el and const(el[0]) is not None:
                     first[l["name"]] = const(el[0])
+    for gname, g in prog.globals.items():
+        if gname.endswith("_delim") and gname not in first and (g.get("unit") == fam[0].unit):
+            ints = array_ints(g)
+            if ints:
+                first[gname] = ints[0]
     if len(first) < 4:
         raise Broken("delimiter arrays of cif_analyze_string not found (%s)" % sorted(first))
     quote_chars = {v for k, v in first.items() if k != "text_delim"}
-    copies = [(b.id, i, n) for (b, i, r, n) in an.calls_to("u_strcpy")
-              if (path(strip(n["args"][0])) or "").endswith("->delim") and path(strip(n["args"][1])) in first]
-    if len(copies) < 6:
-        raise Broken("only %d delimiter recommendations found in cif_analyze_string" % len(copies))
-    branches = [(blk, cfgq.cond_of(an, blk)) for blk in an.blocks.values() if len(blk.succs) == 2 and cfgq.cond_of(an, blk) is not None]
-    for (bid, idx, n) in copies:
+    all_copies = [(f_, b.id, i, n) for f_ in fam for (b, i, r, n) in f_.calls_to("u_strcpy")
+                  if (path(strip(n["args"][0])) or "").endswith("->delim") and path(strip(n["args"][1])) in first]
+    if {path(strip(n["args"][1])) for (_, _, _, n) in all_copies} < set(first):
+        raise Broken("not every delimiter of cif_analyze_string is recommended somewhere (%s)" % sorted(first))
+    for (an, bid, idx, n) in all_copies:
+        branches = [(blk, cfgq.cond_of(an, blk)) for blk in an.blocks.values() if len(blk.succs) == 2 and cfgq.cond_of(an, blk) is not None]
         d = path(strip(n["args"][1]))
         bad = []
         n_guards = 0
